@@ -116,6 +116,22 @@ def mapOpt {α β : Type} (f : α → Option β) : List α → Option (List β)
       | none => none
       | some bs => some (b :: bs)
 
+/-- condition/assignment of the select loop of the tree (OneHot.cpp:104-110):
+`IF(valid(lowerStep[i])) { highSelect = i; *lowSelect = zext(*lowerStep[i]); valid(lowSelect) = '1'; }` -/
+def treeSelF (lower : List PEOut) (i : Nat) : Option (Nat × Option Nat) :=
+  match lower[i]? with
+  | some o => if o.valid then some (i, o.v) else none
+  | none => none
+
+/-- the combination step of one tree level (OneHot.cpp:97-113): the select loop
+`for (i = lowerStep.size()-1 … 0) IF(valid(lowerStep[i])) { highSelect = i; lowSelect = zext(*lowerStep[i]); valid = 1 }`
+followed by `cat(highSelect, lowSelect)` (`bps` and `BitWidth::count(per)` bits; both undefined when nothing is valid) -/
+def treeCombine (bps per : Nat) (lower : List PEOut) : PEOut :=
+  let lowW := bwCount per
+  match scanDown (treeSelF lower) lower.length none with
+  | none => ⟨bps + lowW, none, false⟩
+  | some (i, lo) => ⟨bps + lowW, lo.map (fun l => (i % 2 ^ bps) * 2 ^ lowW + l % 2 ^ lowW), true⟩
+
 /-- `priorityEncoderTree(in, registerStep = false, bps)` (OneHot.cpp:82-118).  `fuel` bounds the recursion depth
 (the C++ recursion does not terminate for `bps = 0`: `none`). -/
 def peTree (bps : Nat) : (fuel : Nat) → List Bool → Option PEOut
@@ -127,17 +143,40 @@ def peTree (bps : Nat) : (fuel : Nat) → List Bool → Option PEOut
     else
       match mapOpt (peTree bps fuel) (chunks per bits.length bits) with
       | none => none
-      | some lower =>
-        let lowW := bwCount per
-        -- for (i = lowerStep.size()-1 … 0) IF(valid(lowerStep[i])) { highSelect = i; lowSelect = zext(*lowerStep[i]); valid = 1 }
-        let sel := scanDown (fun i => match lower[i]? with
-                                      | some o => if o.valid then some (i, o.v) else none
-                                      | none => none) lower.length none
-        match sel with
-        | none => some ⟨bps + lowW, none, false⟩                  -- cat(undefined, undefined)
-        | some (i, lo) =>
-          -- cat(highSelect, lowSelect): highSelect has `bps` bits, lowSelect `lowW` bits
-          some ⟨bps + lowW, lo.map (fun l => (i % 2 ^ bps) * 2 ^ lowW + l % 2 ^ lowW), true⟩
+      | some lower => some (treeCombine bps per lower)
+
+/-- `priorityEncoderTree(in, registerStep = true, bps)`: every level that is not the flat base case ends in `out = reg(out)`
+(OneHot.cpp:115-116) — a plain register, so the level's output in cycle `t` is what it computed from its lower level in cycle
+`t-1`.  `hist s` = the input word in cycle `s`.  (Power-on contents are not modelled: `t - 1` saturates at 0; the output is
+meaningful for `t ≥` longest `peTreeDepth`, when every register on every path has been loaded.) -/
+def peTreeReg (bps : Nat) : (fuel : Nat) → (hist : Nat → List Bool) → (t : Nat) → Option PEOut
+  | 0, _, _ => none
+  | fuel+1, hist, t =>
+    let n := (hist t).length
+    let stepBits := 2 ^ bps
+    let per := nextPow2 ((n + stepBits - 1) / stepBits)
+    if per ≤ 1 then some (priorityEncoder (hist t))
+    else
+      let m := (chunks per n (hist t)).length
+      match mapOpt (fun i => peTreeReg bps fuel (fun s => (chunks per n (hist s)).getD i []) (t - 1)) (List.range m) with
+      | none => none
+      | some lower => some (treeCombine bps per lower)
+
+/-- number of registers on the longest / shortest path through the registered tree for an `n`-bit input: all chunks have
+`per` bits except possibly a shorter last one -/
+def peTreeDepth (bps : Nat) (longest : Bool) : (fuel : Nat) → (n : Nat) → Nat
+  | 0, _ => 0
+  | fuel+1, n =>
+    let stepBits := 2 ^ bps
+    let per := nextPow2 ((n + stepBits - 1) / stepBits)
+    if per ≤ 1 then 0
+    else
+      let full := peTreeDepth bps longest fuel per
+      let rest := n % per
+      if rest = 0 then 1 + full
+      else
+        let last := peTreeDepth bps longest fuel rest
+        1 + (if longest then max full last else min full last)
 
 /-- `countLeadingZeros` (OneHot.cpp:58-67): `UInt ret = in.size(); for i: IF(in[i]) ret = in.size() - i - 1;` -/
 def clzGo (n : Nat) : List Bool → Nat → Nat → Nat
@@ -303,6 +342,17 @@ def counterStep (c : CounterCfg) (v : Nat) (i : CounterIn) : CounterOut :=
       else v1
   let v2 := if i.load then i.loadValue else v1
   ⟨v, last, first, v2 == 0, v2⟩
+
+/-- what the user logic does with the counter in one cycle -/
+structure CounterOp where
+  inc : Bool
+  dec : Bool
+  load : Bool
+  lv : Nat
+
+/-- register value after a history of cycles (`em1` = the constant `(end-1).lower(counterW)`) -/
+def counterRun (c : CounterCfg) (em1 : Nat) (v : Nat) (ops : List CounterOp) : Nat :=
+  ops.foldl (fun v o => (counterStep c v ⟨o.inc, o.dec, o.load, o.lv, em1⟩).next) v
 
 /-- `Counter(size_t end, startup)` (Counter.cpp:23-33): width and overflow handling chosen from `end` -/
 def counterCfgOfEnd (end_ : Nat) (autoInc : Bool) : CounterCfg :=
